@@ -24,6 +24,7 @@ for q, fi in sorted(m.funcs.items()):
     sig = alpha.signatures(fi.node)
     if len(sig) > 1 or (sig and "self" not in sig):
         out[q[len(m.pkg) + 1:]] = {n: dict(c) for n, c in sorted(sig.items())}
+out["__normaliser__"] = alpha.normaliser_digest()
 with open(os.path.join(VERIF, "reference", "locals.json"), "w") as fh:
     json.dump(out, fh, indent=0, sort_keys=True)
 print(len(out), "functions")
